@@ -239,7 +239,12 @@ def gen_points(t, specs):
         for k, s in specs.items():
             if t.chance(1, 3):
                 continue
-            if s.is_float:
+            if s.quantized:
+                # an initial value of a quantised domain is a point of its grid (anything else is not a member)
+                q_, lo_, up_ = s.params["q"], s.params["lower"], s.params["upper"]
+                kq = t.int(int(round(lo_ / q_)), int(round(up_ / q_))) * q_
+                pt[k] = int(kq) if s.is_int else min(max(float(kq), lo_), up_)
+            elif s.is_float:
                 pt[k] = t.float(s.params["lower"], s.params["upper"])
             elif s.is_int:
                 pt[k] = t.int(s.params["lower"], s.params["upper"])
